@@ -51,14 +51,17 @@ impl Clone for ElementVar {
     fn clone(&self) -> (r: ElementVar) ensures r.inner.x.val() == self.inner.x.val(), r.inner.y.val() == self.inner.y.val()
     { ElementVar { inner: self.inner.clone() } }
 }
-// (a*b)*c == a*(b*c) mod q   (proved from vstd's modular arithmetic lemmas)
-pub broadcast proof fn lemma_fmul_assoc(a: int, b: int, c: int)
-    ensures #[trigger] fmul(fmul(a, b), c) == fmul(a, fmul(b, c))
+// (z * di) * d == z  whenever  d * di == 1     (no new product-of-product terms: safe as a broadcast lemma)
+pub broadcast proof fn lemma_cancel(z: int, di: int, d: int)
+    requires in_fq(z), fmul(d, di) == 1
+    ensures #[trigger] fmul(fmul(z, di), d) == z
 {
     let p = fq_p();
-    vstd::arithmetic::div_mod::lemma_mul_mod_noop_general(a * b, c, p);
-    vstd::arithmetic::div_mod::lemma_mul_mod_noop_general(a, b * c, p);
-    assert((a * b) * c == a * (b * c)) by(nonlinear_arith);
+    vstd::arithmetic::div_mod::lemma_mul_mod_noop_general(z * di, d, p);
+    assert((z * di) * d == z * (d * di)) by(nonlinear_arith);
+    vstd::arithmetic::div_mod::lemma_mul_mod_noop_general(z, d * di, p);
+    vstd::arithmetic::div_mod::lemma_small_mod(z as nat, p as nat);
+    assert(z * 1 == z);
 }
 pub broadcast proof fn lemma_fmul_one(a: int)
     requires in_fq(a)
@@ -68,8 +71,27 @@ pub broadcast proof fn lemma_fmul_one(a: int)
 }
 // M-PRIME: Z/q has no zero divisors
 pub broadcast axiom fn m_prime_no_zero_div(a: int, b: int)
-    requires in_fq(a), in_fq(b), #[trigger] fmul(a, b) == 0
+    requires in_fq(a), in_fq(b), #[trigger] mmul(fq_p(), a, b) == 0
     ensures a == 0 || b == 0;
+// relation between the affine coordinates the Elligator gadget outputs and the specification's Jacobi-quartic
+// point for the inverse-square-root answer (ws, y):  x * (1 + a s^2) == 2 s  and  y * t == 1 - a s^2
+pub open spec fn ell_affine_rel(r0: int, ws: bool, y: int, ax: int, ay: int) -> bool {
+    let st = ell_st(r0, ws, y);
+    fmul(ax, fadd(1, fmul(A_(), fsq(st.0)))) == fmul(2, st.0) && fmul(ay, st.1) == fsub(1, fmul(A_(), fsq(st.0)))
+}
+impl ElementVar {
+    #[verifier::external_body]
+    pub fn cs(&self) -> (r: ConstraintSystemRef<Fq>) { unimplemented!() }
+}
+// M-PRIME + zeta non-square: for den != 0 the flag is determined and the root is determined up to sign
+pub axiom fn m_isqrt_unique(den: int, f1: bool, y1: int, f2: bool, y2: int)
+    requires in_fq(den), den != 0, isqrt_ok(1, den, f1, y1), isqrt_ok(1, den, f2, y2)
+    ensures f1 == f2 && (y1 == y2 || y1 == fneg(y2));
+// M-DECAF: decoding with the other root gives the same group element (sign fix of step 6; for s = 0 the two
+// results are the two representatives (0, 1) and (0, -1) of the identity)
+pub axiom fn m_decaf_dec_root_indep(s: int, v: int)
+    requires in_fq(s), in_fq(v)
+    ensures spec_eq(spec_decode_v(s, fneg(v)), spec_decode_v(s, v));
 pub open spec fn pv(e: ElementVar) -> P4 { P4 { x: e.inner.x.val(), y: e.inner.y.val(), z: 1, t: fmul(e.inner.x.val(), e.inner.y.val()) } }
 impl Fq {
     #[verifier::external_body]
@@ -114,9 +136,12 @@ def unit(mode):
     def ext(fn):
         items.append(Item(EXT, hdr, [fn], header_out="impl FqVar"))
     if sound:
-        ext(Fn("isqrt", props=(tag,), preamble=bu + " broadcast use lemma_fmul_assoc, lemma_fmul_one, m_prime_no_zero_div;", subst=r9,
+        ext(Fn("isqrt", props=(tag,), preamble=bu + " broadcast use lemma_cancel, lemma_fmul_one, m_prime_no_zero_div;", subst=r9,
                ensures="match r { Ok(p) => isqrt_weak(self.val(), p.0.bval(), p.1.val()), Err(_) => true }",
                tag="what the constraint block enforces; the strict contract is the obligation isqrt#strict below"))
+        ext(Fn("isqrt", props=(tag,), preamble=bu + " broadcast use lemma_cancel, lemma_fmul_one, m_prime_no_zero_div;", subst=r9, variant="#strict",
+               ensures="match r { Ok(p) => isqrt_ok(1, self.val(), p.0.bval(), p.1.val()), Err(_) => true }", cover=False,
+               tag="the four-case contract of the specification for EVERY satisfying assignment (C14); known finding D6"))
         ext(Fn("is_nonnegative", props=(tag,), preamble=bu, ensures="match r { Ok(b) => b.bval() == !is_neg(self.val()), Err(_) => true }"))
         ext(Fn("is_negative", props=(tag,), preamble=bu, ensures="match r { Ok(b) => b.bval() == is_neg(self.val()), Err(_) => true }"))
         ext(Fn("abs", props=(tag,), preamble=bu, ensures="match r { Ok(x) => x.val() == fabs(self.val()), Err(_) => true }"))
@@ -126,6 +151,60 @@ def unit(mode):
         ext(Fn("is_nonnegative", props=(tag,), preamble=bu, ensures="match r { Ok(b) => b.bval() == !is_neg(self.val()), Err(_) => false }"))
         ext(Fn("is_negative", props=(tag,), preamble=bu, ensures="match r { Ok(b) => b.bval() == is_neg(self.val()), Err(_) => false }"))
         ext(Fn("abs", props=(tag,), preamble=bu, ensures="match r { Ok(x) => x.val() == fabs(self.val()), Err(_) => false }"))
+    inn_subst = [("R8", r'\bns!\(\s*(\w+)\s*,\s*"[^"]*"\s*\)', r'\1.clone()'),
+                 ("R7", r'\bAffineVar::new\(', 'Decaf377EdwardsVar::new(')]
+    bui = bu + " broadcast use lemma_cancel, lemma_fmul_one;"
+
+    def inn(fn, hdr="impl ElementVar", **kw):
+        fn = dataclasses.replace(fn, subst=list(fn.subst) + inn_subst)
+        items.append(Item(INN, hdr, [fn], **kw))
+    E_ = "Err(_) => true" if sound else "Err(_) => false"
+    if sound:
+        ghost = " let ghost mut gw_: bool = false; let ghost mut gv_: int = 0;"
+
+        def isq(den_expr):
+            # R20: name the result of the `.isqrt()?` call (whatever its receiver is called) so that proof hints can refer to it
+            return [("R20", r'(\w+)\.isqrt\(\)\?',
+                     r'{ let c_ = \1.isqrt()?; proof { gw_ = c_.0.bval(); gv_ = c_.1.val(); assert(\1.val() == ' + den_expr + r'); } c_ }')]
+        inn(Fn("compress_to_field", props=(tag,), preamble=bui + ghost, subst=isq("enc_den(pv(*self))"),
+               epilogue="match &r_ { Ok(s) => { assert(s.val() == spec_encode_v(pv(*self), gv_)); assert(isqrt_weak(enc_den(pv(*self)), gw_, gv_)); } Err(_) => {} }",
+               ensures=f"match r {{ Ok(s) => exists|ws: bool, y: int| #[trigger] isqrt_weak(enc_den(pv(*self)), ws, y) && s.val() == spec_encode_v(pv(*self), y), {E_} }}"))
+        inn(Fn("decompress_from_field", props=(tag,), preamble=bui + ghost, subst=isq("dec_den(s_var.val())"),
+               epilogue="match &r_ { Ok(e) => { assert(gw_); assert(pv(*e) == spec_decode_v(s_var.val(), gv_)); assert(isqrt_weak(dec_den(s_var.val()), true, gv_)); } Err(_) => {} }",
+               ensures=f"""match r {{ Ok(e) => !is_neg(s_var.val()) && exists|v0: int| #[trigger] isqrt_weak(dec_den(s_var.val()), true, v0)
+                             && pv(e) == spec_decode_v(s_var.val(), v0), {E_} }}"""))
+        S_ = "s_var.val()"
+        strict = f"spec_decode({S_}) is Some && spec_eq(pv(e), spec_decode({S_})->Some_0)"
+        uniq = f"""match &r_ {{ Ok(e) => {{
+                assert(pv(*e) == spec_decode_v({S_}, gv_)); assert(isqrt_weak(dec_den({S_}), true, gv_));
+                if dec_den({S_}) != 0 {{
+                    let dd = dec_den({S_}); let rt = isqrt_root(1, dd);
+                    m_isqrt_unique(dd, true, gv_, isqrt_flag(1, dd), rt);
+                    if gv_ != rt {{ m_decaf_dec_root_indep({S_}, rt); }}
+                    assert(fmul(pv(*e).x, pv(*e).y) == fmul(pv(*e).y, pv(*e).x));
+                }} }} Err(_) => {{}} }}"""
+        inn(Fn("decompress_from_field", props=(tag,), preamble=bui + ghost, subst=isq("dec_den(s_var.val())"), variant="#outside_region",
+               epilogue=uniq, tag="C14 statement outside the known-finding region (denominator of the inverse square root non-zero)",
+               ensures=f"match r {{ Ok(e) => dec_den({S_}) != 0 ==> ({strict}), {E_} }}"))
+        inn(Fn("decompress_from_field", props=(tag,), preamble=bui + ghost, subst=isq("dec_den(s_var.val())"), variant="#strict", cover=False,
+               epilogue=uniq, tag="C14: an invalid encoding can never be decoded in-circuit; known finding D6 (s = q-1)",
+               ensures=f"match r {{ Ok(e) => {strict}, {E_} }}"))
+        inn(Fn("elligator_map", props=(tag,), preamble=bui + ghost, subst=isq("ell_x(r_0_var.val())"), rlimit=60,
+               epilogue="match &r_ { Ok(e) => { assert(ell_affine_rel(r_0_var.val(), gw_, gv_, e.inner.x.val(), e.inner.y.val())); assert(isqrt_weak(ell_x(r_0_var.val()), gw_, gv_)); } Err(_) => {} }",
+               ensures=f"""match r {{ Ok(e) => exists|ws: bool, y: int| #[trigger] isqrt_weak(ell_x(r_0_var.val()), ws, y)
+                             && ell_affine_rel(r_0_var.val(), ws, y, e.inner.x.val(), e.inner.y.val()), {E_} }}"""))
+    inn(Fn("is_eq", props=(tag,), preamble=bui, ensures=f"match r {{ Ok(b) => b.bval() == spec_eq(pv(*self), pv(*other)), {E_} }}"),
+        hdr="impl EqGadget<Fq> for ElementVar", header_out="impl ElementVar")
+    if sound:
+        inn(Fn("conditional_enforce_equal", props=(tag,), preamble=bui,
+               ensures="r is Ok ==> (should_enforce.bval() ==> spec_eq(pv(*self), pv(*other)))"),
+            hdr="impl EqGadget<Fq> for ElementVar", header_out="impl ElementVar")
+        inn(Fn("conditional_enforce_not_equal", props=(tag,), preamble=bui,
+               ensures="r is Ok ==> (should_enforce.bval() ==> !spec_eq(pv(*self), pv(*other)))"),
+            hdr="impl EqGadget<Fq> for ElementVar", header_out="impl ElementVar")
+    inn(Fn("conditionally_select", props=(tag,), preamble=bui,
+           ensures=f"match r {{ Ok(x) => pv(x) == (if cond.bval() {{ pv(*true_value) }} else {{ pv(*false_value) }}), {E_} }}"),
+        hdr="impl CondSelectGadget<Fq> for ElementVar", header_out="impl ElementVar")
     u = Unit(name=f"r1cs_{mode}", preludes=base_preludes() + [("curve_spec.rs", None), ("r1cs.rs", None)],
              items=items, lemmas=lem + R1CS_LEMMAS + (COMPL_LEMMAS if not sound else ""), params=fq, global_subst=common_subst)
     u.raw = [(INN, "struct", "ElementVar")]
